@@ -154,6 +154,13 @@ class MirCheck:
                     self.out.add(q.name, "inconclusive", "unwinding assertion: loop bound too small for this input space", r["time_s"], eng_name, extra)
                     continue
                 model = r.get("model") or {}
+                prefs = q.meta.get("prefer") or []
+                if prefs and q.on_sat is not None:
+                    # replay-friendlier counterexample (e.g. clock frozen during the call), if one exists
+                    r2 = solve.decide(q.formulas + list(prefs), timeout=min(60, q.timeout), tag=f"{self.pid}_{q.name}_pref")
+                    if r2["result"] == "sat" and r2.get("model"):
+                        model = r2["model"]
+                        extra["preferred_model"] = True
                 if q.on_sat is None:
                     extra["model"] = _trim_model(model)
                     self.out.add(q.name, "inconclusive", "counterexample found but this obligation has no native replay", r["time_s"], eng_name, extra)
